@@ -223,7 +223,7 @@ func (t *Transaction) rowsFromTransactionCacheAndDatabase(table string, where []
 		return nil, err
 	}
 
-	txnRows, err := t.Cache.Table(table).RowsByCondition(where)
+	txnRows, err := t.txnRowsByCondition(table, where)
 	if err != nil {
 		return nil, fmt.Errorf("failed getting rows for table %s from transaction cache: %v", table, err)
 	}
@@ -264,6 +264,54 @@ func (t *Transaction) rowsFromTransactionCacheAndDatabase(table string, where []
 		delete(rows, rowUUID)
 	}
 	return rows, nil
+}
+
+// txnRowsByCondition returns the rows of the transaction cache that match the
+// conditions. The conditions are evaluated on every row instead of looking
+// rows up through the indexes of the transaction cache: those are written
+// without checks and only remember the last row that took a value, so a row
+// that shares a value with another one, even transiently (it took the value
+// over from a row that is changed later in the transaction), may no longer be
+// reachable through them.
+func (t *Transaction) txnRowsByCondition(table string, where []ovsdb.Condition) (map[string]model.Model, error) {
+	tc := t.Cache.Table(table)
+	if len(where) == 0 {
+		return tc.RowsByCondition(where)
+	}
+	schema := t.Model.Schema.Table(table)
+	nativeValues := make([]interface{}, 0, len(where))
+	for _, condition := range where {
+		nativeValue, err := ovsdb.OvsToNative(schema.Column(condition.Column), condition.Value)
+		if err != nil {
+			return nil, err
+		}
+		nativeValues = append(nativeValues, nativeValue)
+	}
+	results := make(map[string]model.Model)
+	for uuid, row := range tc.RowsShallow() {
+		info, err := t.Model.NewModelInfo(row)
+		if err != nil {
+			return nil, err
+		}
+		matches := true
+		for i, condition := range where {
+			value, err := info.FieldByColumn(condition.Column)
+			if err != nil {
+				return nil, err
+			}
+			matches, err = condition.Function.Evaluate(value, nativeValues[i])
+			if err != nil {
+				return nil, err
+			}
+			if !matches {
+				break
+			}
+		}
+		if matches {
+			results[uuid] = model.Clone(row)
+		}
+	}
+	return results, nil
 }
 
 // checkIndexes checks that there are no index conflicts:
